@@ -542,3 +542,16 @@ Example combine_example :
   combine_sum [[([(0, 1)], 5); ([(1, 2)], 10)]; [([(1, 2)], 12); ([(2, 3)], 3); ([(3, 4)], 20)]]
   = [([(0, 1)], 5); ([(1, 2)], 10 + 12); ([(2, 3)], 3); ([(3, 4)], 20)].
 Proof. reflexivity. Qed.
+
+(* non-vacuity of the hypotheses of the conservation / identity theorems: an irregular covering binning, the own binning *)
+Example conservation_example :
+  let h := [((0, 1), 10); ((1, 2), 20); ((2, 3), 30); ((3, 4), 40)] in
+  let edges := [-1; 3 # 10; 39 # 10; 4; 6] in
+  (Forall (fun s => 0 < ilen (fst s)) h /\ ssortedb edges = true /\ Forall (fun s => within edges (fst s)) h) /\
+  Qsum (map snd (rebin 0 h (from_breaks edges))) == 100 /\
+  incr (map fst h) /\ hist_eqb (rebin 0 h (map fst h)) h = true.
+Proof.
+  cbv zeta. split; [|split; [vm_compute; reflexivity|split; [|vm_compute; reflexivity]]].
+  - split; [|split; [reflexivity|]]; repeat constructor; unfold ilen, hd_edge, last_edge; cbn [fst snd hd last]; lra.
+  - cbn [map fst incr]. repeat split; try (cbn [fst snd]; lra); repeat constructor; cbn [fst snd]; lra.
+Qed.
